@@ -67,7 +67,20 @@ func vNondetU64(name string) uint64 {
 	}
 	return v.Uint64()
 }
+func vPresent(name string) bool {
+	vLoad()
+	_, ok := vCex[name]
+	return ok
+}
+
 func vNondetRange(name string, lo, hi int64) int64 {
+	if !vPresent(name) {
+		// a variable the solver's query did not mention: any value in range will do
+		if lo <= 0 && hi >= 0 {
+			return 0
+		}
+		return lo
+	}
 	v := vNondetI64(name)
 	if v < lo || v > hi {
 		panic(vAssumeFailed{"range " + name})
@@ -167,9 +180,28 @@ func vTier() int {
 func vOverride(name string, fn interface{}) {}
 
 func vNondetBigRange(name string, lo, hi *big.Int) *big.Int {
+	if !vPresent(name) {
+		if lo.Sign() <= 0 && hi.Sign() >= 0 {
+			return new(big.Int)
+		}
+		return new(big.Int).Set(lo)
+	}
 	v := vLookup(name)
 	if v.Cmp(lo) < 0 || v.Cmp(hi) > 0 {
 		panic(vAssumeFailed{"range " + name})
 	}
 	return v
+}
+
+// vScope runs f; a failed assumption inside abandons only this scope.
+func vScope(f func()) {
+	defer func() {
+		if r := recover(); r != nil {
+			if _, ok := r.(vAssumeFailed); ok {
+				return
+			}
+			panic(r)
+		}
+	}()
+	f()
 }
